@@ -159,7 +159,7 @@ func (w *world) richFiles(root string, i int, rng *rand.Rand) {
 	inner := zipBytes(map[string][]byte{"deep/inside.txt": tag, "deep/more/x.bin": {1, 2, 3}})
 	jar := zipBytes(map[string][]byte{"META-INF/MANIFEST.MF": []byte("Manifest-Version: 1.0\n"), "com/example/App.class": tag})
 	bundle := zipBytes(map[string][]byte{"inner/nested.zip": inner, "readme.md": tag, "assets/app.jar": jar})
-	big := bytes.Repeat([]byte(fmt.Sprintf("line of version %d, compressible text\n", i)), 3000) // ~100 KiB
+	big := bytes.Repeat([]byte(fmt.Sprintf("line of version %d, compressible text\n", i)), 1200) // ~45 KiB
 	for name, content := range map[string][]byte{
 		"lib/app.jar":                        jar,
 		"dist/bundle.zip":                    bundle,
